@@ -16,6 +16,7 @@ EXTENDS Rat, Sequences, FiniteSets, Functions, Folds, TLC, Json
 CONSTANTS Cat,        \* sequence of [n, Q (rows), wit]
           S2s,        \* candidate noise variances, rationals <<num, den>>
           Ns,         \* dataset sizes for the noise-free theorem
+          Perts,      \* perturbations of the first answer (0 = noise-free; negative values push one estimate below 1)
           MaxLen      \* measurement lists up to this length
 
 VARIABLES ms, n0, pert, done
@@ -38,11 +39,12 @@ ASSUME \A c \in DOMAIN Cat : WitnessOK(c)
 
 \* a deterministic dataset vector of length n with n0 records: all mass spread from the last cell backwards
 XVec(n, N) == [j \in 1..n |-> (N \div n) + (IF j > n - (N % n) THEN 1 ELSE 0)]
-YOf(m, N, p) == LET E == Cat[m.c] y == MatVec(E.Q, XVec(E.n, N))
-                IN  [i \in DOMAIN y |-> y[i] + (IF i = 1 THEN p ELSE 0)]
+\* only the FIRST measurement of the list is perturbed, so individual estimates differ (one may fall below 1)
+YOfK(k, N, p) == LET E == Cat[ms[k].c] y == MatVec(E.Q, XVec(E.n, N))
+                 IN  [i \in DOMAIN y |-> y[i] + (IF i = 1 /\ k = 1 THEN p ELSE 0)]
 
 Lists == UNION {[1..k -> [c : DOMAIN Cat, s2 : S2s]] : k \in 0..MaxLen}
-Init == ms \in Lists /\ n0 \in Ns /\ pert \in {0, 3} /\ done = FALSE
+Init == ms \in Lists /\ n0 \in Ns /\ pert \in Perts /\ done = FALSE
 
 \* l.293-298
 Est(m, y) == LET w == Cat[m.c].wit IN R(Dot(w[2], y), w[3])
@@ -55,11 +57,11 @@ Result ==
   IF Used = {} THEN <<1, 1>>
   ELSE LET inv == [k \in Used |-> RDiv(<<1, 1>>, Var(ms[k]))]
            wsum == RSum(inv, Used)
-           est == RDiv(RSum([k \in Used |-> RMul(Est(ms[k], YOf(ms[k], n0, pert)), inv[k])], Used), wsum)
+           est == RDiv(RSum([k \in Used |-> RMul(Est(ms[k], YOfK(k, n0, pert)), inv[k])], Used), wsum)
        IN  IF RLt(est, <<1, 1>>) THEN <<1, 1>> ELSE est
 
 Emit == /\ ~done /\ done' = TRUE
-        /\ PrintT(<<"EMIT", ToJson([ms |-> [k \in DOMAIN ms |-> [c |-> ms[k].c, s2 |-> ms[k].s2, y |-> YOf(ms[k], n0, pert)]],
+        /\ PrintT(<<"EMIT", ToJson([ms |-> [k \in DOMAIN ms |-> [c |-> ms[k].c, s2 |-> ms[k].s2, y |-> YOfK(k, n0, pert)]],
                                     N |-> n0, pert |-> pert, used |-> Used, total |-> Result])>>)
         /\ UNCHANGED <<ms, n0, pert>>
 Next == Emit
